@@ -15,7 +15,7 @@ import (
 // Command lattice: equal, parent, child, sibling, textual-prefix-only, top.
 // /σ and /ς are distinct valid commands whose only letters are case-fold partners of each other.
 // /a/.., /a/./b and /a//b are valid commands whose segments "..", "." and "" are ordinary opaque segments.
-var c02Lattice = []string{"/", "/a", "/a/b", "/a/b/c", "/a/c", "/ab", "/ab/c", "/b", "/σ", "/ς", "/a/..", "/a/./b", "/a//b"}
+var c02Lattice = []string{"/", "/a", "/a/b", "/a/b/c", "/a/c", "/ab", "/ab/c", "/b", "/σ", "/ς", "/a/..", "/a/./b", "/a//b", "/ucan", "/ucan/revoke"}
 
 // sliceLoader resolves proof CIDs positionally by linear search.
 type sliceLoader struct {
@@ -40,7 +40,8 @@ func (l *sliceLoader) GetDelegation(c cid.Cid) (*delegation.Token, error) {
 func alignedHolder(n, i int) int { return (n - i) % 3 }
 
 type c02Case struct {
-	Cmds []int `json:"cmds"` // [invocation, d0 (leaf), ..., d_{n-1} (root)] indexes into the lattice
+	Cmds      []int `json:"cmds"`      // [invocation, d0 (leaf), ..., d_{n-1} (root)] indexes into the lattice
+	Powerline int   `json:"powerline"` // 0 = none; k > 0: link k-1 (never the root) carries no subject
 }
 
 func (c *c02Case) Weight() int { return len(c.Cmds) }
@@ -49,7 +50,7 @@ func c02Sub(name, dir string, qn, tn int) *engine.Sub {
 	return &engine.Sub{
 		Name:   name,
 		Repeat: true,
-		Rule:   "every assignment of lattice commands {/, /a, /a/b, /a/b/c, /a/c, /ab, /ab/c, /b, /σ, /ς (two distinct lower-case commands that only differ by case-fold partners), /a/.., /a/./b, /a//b (dot and empty segments are ordinary segments, not path navigation)} to the invocation and to each link of a principal-aligned chain; non-trivial = at most one link fails the reference cover relation",
+		Rule:   "every assignment of lattice commands {/, /a, /a/b, /a/b/c, /a/c, /ab, /ab/c, /b, /σ, /ς (two distinct lower-case commands that only differ by case-fold partners), /a/.., /a/./b, /a//b (dot and empty segments are ordinary segments, not path navigation), /ucan, /ucan/revoke (the namespace the UCAN specifications use for their own commands obeys the same rule)} to the invocation and to each link of a principal-aligned chain (chains of 2 - 3 links also with one non-root link that names no subject); non-trivial = at most one link fails the reference cover relation",
 		Bound: func(t string) string {
 			return fmt.Sprintf("chains of 1..%d links, %d commands per position", tierN(t, qn, tn), len(c02Lattice))
 		},
@@ -60,6 +61,15 @@ func c02Sub(name, dir string, qn, tn int) *engine.Sub {
 				for {
 					if !emit(&c02Case{Cmds: append([]int{}, idx...)}) {
 						return
+					}
+					// the same chain with one non-root link that names no subject (a "powerline" delegation): such a
+					// chain is refused anyway (C01); in particular it must not be allowed when a command is widened
+					if n >= 2 && n <= 3 {
+						for k := 1; k < n; k++ {
+							if !emit(&c02Case{Cmds: append([]int{}, idx...), Powerline: k}) {
+								return
+							}
+						}
 					}
 					i := n
 					for i >= 0 {
@@ -83,7 +93,11 @@ func c02Sub(name, dir string, qn, tn int) *engine.Sub {
 			ld := &sliceLoader{}
 			prf := make([]cid.Cid, n)
 			for i := 0; i < n; i++ {
-				d := mustDlg(alignedHolder(n, i+1), alignedHolder(n, i), 0, c02Lattice[cs.Cmds[i+1]], nil)
+				sub := 0
+				if cs.Powerline == i+1 {
+					sub = -1
+				}
+				d := mustDlg(alignedHolder(n, i+1), alignedHolder(n, i), sub, c02Lattice[cs.Cmds[i+1]], nil)
 				ld.cids = append(ld.cids, cidPool[i])
 				ld.toks = append(ld.toks, d)
 				prf[i] = cidPool[i]
@@ -124,7 +138,7 @@ func c02Sub(name, dir string, qn, tn int) *engine.Sub {
 					}
 					ctx.Failf(cs, "command-widened@"+pos, "%s allowed %s although link %d (%s) does not cover %s", api, c02Describe(cs), firstBad, c02Lattice[cs.Cmds[firstBad+1]], c02Lattice[cs.Cmds[firstBad]])
 				}
-				if dir == "complete" && e != nil && bad == 0 {
+				if dir == "complete" && e != nil && bad == 0 && cs.Powerline == 0 {
 					ctx.Failf(cs, "denied-attenuating:"+errLabel(e), "%s denied the attenuating command sequence %s: %v", api, c02Describe(cs), e)
 				}
 			}
